@@ -6,6 +6,7 @@ package main
 
 import (
 	"errors"
+	"math"
 	"fmt"
 	"go/types"
 	"strings"
@@ -685,3 +686,62 @@ func (w *World) errorsAs(fr *frame, err, target Iface, depth int) bool {
 }
 
 var _ = errors.New
+
+func init() {
+	// math: native on concrete floats
+	f1 := func(f func(float64) float64) intrinsic {
+		return func(w *World, t *Thread, fr *frame, fn *ssa.Function, args []Value) Value {
+			x, ok := args[0].(float64)
+			if !ok {
+				return Opaque{"math function of symbolic float"}
+			}
+			return f(x)
+		}
+	}
+	f2 := func(f func(a, b float64) float64) intrinsic {
+		return func(w *World, t *Thread, fr *frame, fn *ssa.Function, args []Value) Value {
+			x, ok1 := args[0].(float64)
+			y, ok2 := args[1].(float64)
+			if !ok1 || !ok2 {
+				return Opaque{"math function of symbolic float"}
+			}
+			return f(x, y)
+		}
+	}
+	reg("math.Round", f1(math.Round))
+	reg("math.Floor", f1(math.Floor))
+	reg("math.Ceil", f1(math.Ceil))
+	reg("math.Abs", f1(math.Abs))
+	reg("math.Sqrt", f1(math.Sqrt))
+	reg("math.Log", f1(math.Log))
+	reg("math.Log2", f1(math.Log2))
+	reg("math.Exp", f1(math.Exp))
+	reg("math.Trunc", f1(math.Trunc))
+	reg("math.Max", f2(math.Max))
+	reg("math.Min", f2(math.Min))
+	reg("math.Pow", f2(math.Pow))
+	reg("math.Mod", f2(math.Mod))
+	reg("math.IsNaN", func(w *World, t *Thread, fr *frame, fn *ssa.Function, args []Value) Value {
+		x, ok := args[0].(float64)
+		return w.tt.Bool(ok && math.IsNaN(x))
+	})
+	reg("math.IsInf", func(w *World, t *Thread, fr *frame, fn *ssa.Function, args []Value) Value {
+		x, ok := args[0].(float64)
+		s, _ := args[1].(*Term).Const64()
+		return w.tt.Bool(ok && math.IsInf(x, int(int64(s))))
+	})
+	reg("math.Float64bits", func(w *World, t *Thread, fr *frame, fn *ssa.Function, args []Value) Value {
+		x, ok := args[0].(float64)
+		if !ok {
+			w.unsupported(fr, "Float64bits of symbolic float")
+		}
+		return w.tt.BV(64, math.Float64bits(x))
+	})
+	reg("math.Float64frombits", func(w *World, t *Thread, fr *frame, fn *ssa.Function, args []Value) Value {
+		c, ok := args[0].(*Term).Const64()
+		if !ok {
+			return Opaque{"float from symbolic bits"}
+		}
+		return math.Float64frombits(c)
+	})
+}
